@@ -123,6 +123,8 @@ pub trait KS: KmerStorage + Hash + Ord + serde::Serialize + serde::de::Deseriali
     const W: u8;
     fn to_u128(self) -> u128;
     fn from_u128(x: u128) -> Self;
+    /// build a k-mer from an integer through the public `From` impls where the library has them
+    fn kmer_from_int<A: VC, const K: usize>(x: u128) -> Kmer<A, K, Self>;
 }
 impl KS for usize {
     const W: u8 = 0;
@@ -131,6 +133,9 @@ impl KS for usize {
     }
     fn from_u128(x: u128) -> Self {
         x as usize
+    }
+    fn kmer_from_int<A: VC, const K: usize>(x: u128) -> Kmer<A, K, Self> {
+        Kmer::<A, K, usize>::from(x as usize)
     }
 }
 impl KS for u64 {
@@ -141,6 +146,13 @@ impl KS for u64 {
     fn from_u128(x: u128) -> Self {
         x as u64
     }
+    fn kmer_from_int<A: VC, const K: usize>(x: u128) -> Kmer<A, K, Self> {
+        if x & 1 == 0 {
+            Kmer::<A, K, u64>::from(x as u64)
+        } else {
+            Kmer::<A, K, u64>::from(x as usize)
+        }
+    }
 }
 impl KS for u128 {
     const W: u8 = 2;
@@ -149,6 +161,12 @@ impl KS for u128 {
     }
     fn from_u128(x: u128) -> Self {
         x
+    }
+    fn kmer_from_int<A: VC, const K: usize>(x: u128) -> Kmer<A, K, Self> {
+        Kmer {
+            _p: PhantomData,
+            bs: x,
+        }
     }
 }
 
@@ -220,7 +238,7 @@ where
         "kint" => {
             let lo = t.u64() as u128;
             let hi = t.u64() as u128;
-            set(st, mk::<A, K, S>(lo | (hi << 64)));
+            set(st, S::kmer_from_int::<A, K>(lo | (hi << 64)));
         }
         "kobs" => {
             let v = cur.bs.to_u128();
@@ -877,7 +895,12 @@ where
             let d1 = s.to_string();
             let d2 = String::from(s);
             let d3 = if sd.ranges.is_empty() {
-                format!("{}", st.regs[sd.reg])
+                let r = &st.regs[sd.reg];
+                let a = format!("{}", r);
+                let b = String::from(r);
+                let c = String::from(r.clone());
+                assert!(a == b && b == c, "display forms of Seq disagree");
+                a
             } else {
                 d1.clone()
             };
@@ -891,7 +914,12 @@ where
         }
         "codes" => {
             let sd = t.sd();
-            st.out.push(lencodes(slice_of(&st.regs, &sd)).join(" "));
+            let v = lencodes(slice_of(&st.regs, &sd));
+            if sd.ranges.is_empty() {
+                let w: Vec<String> = (&st.regs[sd.reg]).into_iter().map(|x| x.to_bits().to_string()).collect();
+                assert!(w[..] == v[1..], "IntoIterator for &Seq disagrees with SeqSlice::iter");
+            }
+            st.out.push(v.join(" "));
         }
         "reviter" => {
             let sd = t.sd();
